@@ -45,8 +45,9 @@ SKIP_POS = {"apply_along_axis", "apply_over_axes"}  # callables are spelled per 
 
 
 @st.composite
-def case_st(draw):
-    kind = draw(st.sampled_from(["recipe"] * 9 + ["division"]))
+def case_st(draw, only=None):
+    kind = "division" if only == "poly-division" else ("recipe" if only else draw(
+        st.sampled_from(["recipe"] * 9 + ["division"])))
     if kind == "division":
         names = ["q0", "q1"][: draw(st.integers(1, 2))]
         target = draw(st.sampled_from([(), (2,), (2, 2)]))
@@ -54,7 +55,7 @@ def case_st(draw):
         b = draw(gen.poly_desc(names=names, shape=gen.broadcast_member(draw, target), kind="i", min_terms=1,
                                max_terms=2, max_exp=1, retain=False))
         return {"fn": "poly-division", "a": a, "b": b}
-    fn = draw(st.sampled_from(sorted(n for n in RECIPES if n not in SKIP_POS)))
+    fn = only or draw(st.sampled_from(sorted(n for n in RECIPES if n not in SKIP_POS)))
     call = RECIPES[fn].gen(draw, OG)
     call["fn"] = fn
     return call
@@ -62,6 +63,14 @@ def case_st(draw):
 
 def strategy(tier):
     return case_st()
+
+
+def STRATA(tier):
+    return sorted(n for n in RECIPES if n not in SKIP_POS) + ["poly-division"] * 3
+
+
+def strategy_for(tier, name):
+    return case_st(only=name)
 
 
 def describe(x, numpoly):
